@@ -96,7 +96,7 @@ def write_cmake(config: kconfiglib.Kconfig, filename: str, write_deprecated: boo
                     val = ""
                 elif sym.orig_type == kconfiglib.STRING:
                     val = kconfiglib._escape(val)
-                elif sym.orig_type == kconfiglib.HEX:
+                elif sym.orig_type == kconfiglib.HEX and val:  # a visible hex option may have no value at all
                     val = hex(int(val, 16))
                 f.write(f'set({prefix}{sym.name} "{val}")\n')
 
